@@ -134,6 +134,16 @@ def check_find_turns(sig, ctx):
         raise Violation("find_turns: %r / %r, reference reversals %r" % (list(idx), list(vals), want), bucket="find_turns")
 
 
+def _magnitude(sig, ctx):
+    """The signal at another order of magnitude (exact scaling by a power of two, chosen as a pure function of the
+    signal): the counting rules compare ranges, whose squares or products must not be what the implementation relies on."""
+    e = (0, 0, 0, 200, 520, -200)[(len(sig) + int(abs(sig[0]) * 4) % 5) % 6]
+    if e:
+        ctx.label("scaled_by_2^%d" % e)
+        return [x * 2.0 ** e for x in sig]
+    return sig
+
+
 def _sig(tier):
     return gs.signals(min_size=2, max_size=50 if tier == "quick" else 300, exact_only=False)
 
@@ -142,7 +152,7 @@ def _sig(tier):
           quick=8000, thorough=400000, crash_guard=True,
           doc="four-point == reference (cycles, order, indices, residual); three-point same multiset+residual; every turning point used once; index addresses value; find_turns == reference reversals")
 def reference_random(case, ctx):
-    sig = case["signal"]
+    sig = _magnitude(case["signal"], ctx)
     check_find_turns(sig, ctx)
     check_fourpoint(sig, ctx)
 
@@ -151,7 +161,7 @@ def reference_random(case, ctx):
           quick=8000, thorough=400000,
           doc="FKM detector == Clormann-Seeger HCM on the interior reversals")
 def fkm_random(case, ctx):
-    check_fkm(case["signal"], ctx)
+    check_fkm(_magnitude(case["signal"], ctx), ctx)
 
 
 def _enum(tier):
